@@ -731,6 +731,62 @@ func makeIntrinsics() map[string]intrinsic {
 		return SliceV{arr: arr, off: I64(0), ln: I64(int64(n)), cp: I64(int64(n)), elem: et}
 	}
 
+	// ---------------------------------------------------------- sync.Mutex, RWMutex, Once, sync/atomic
+	// The engine runs one call at a time, so locks never block. Writes made
+	// while a lock is held (or inside Once.Do) are recorded as synchronised.
+	lock := func(in *Interp, _ *frame, _ *ssa.CallCommon, a []Value) Value { in.lockDepth++; return nil }
+	unlock := func(in *Interp, _ *frame, _ *ssa.CallCommon, a []Value) Value {
+		if in.lockDepth > 0 {
+			in.lockDepth--
+		}
+		return nil
+	}
+	for _, n := range []string{"(*sync.Mutex).Lock", "(*sync.RWMutex).Lock", "(*sync.RWMutex).RLock"} {
+		m[n] = lock
+	}
+	for _, n := range []string{"(*sync.Mutex).Unlock", "(*sync.RWMutex).Unlock", "(*sync.RWMutex).RUnlock"} {
+		m[n] = unlock
+	}
+	m["(*sync.Mutex).TryLock"] = func(in *Interp, _ *frame, _ *ssa.CallCommon, a []Value) Value { in.lockDepth++; return True }
+	m["(*sync.Once).Do"] = func(in *Interp, _ *frame, _ *ssa.CallCommon, a []Value) Value {
+		mo := in.syncMap(a[0])
+		if len(mo.entries) > 0 {
+			return nil
+		}
+		in.poolSet(mo, []mapEntry{{nil, True}})
+		in.lockDepth++
+		in.callFn(a[1].(*FuncV), nil)
+		in.lockDepth--
+		return nil
+	}
+	for _, w := range []string{"Int32", "Int64", "Uint32", "Uint64", "Uintptr"} {
+		m["sync/atomic.Load"+w] = func(in *Interp, _ *frame, _ *ssa.CallCommon, a []Value) Value { return in.load(a[0].(Ptr)) }
+		m["sync/atomic.Store"+w] = func(in *Interp, _ *frame, _ *ssa.CallCommon, a []Value) Value {
+			in.lockDepth++
+			in.store(a[0].(Ptr), a[1])
+			in.lockDepth--
+			return nil
+		}
+		m["sync/atomic.Add"+w] = func(in *Interp, _ *frame, _ *ssa.CallCommon, a []Value) Value {
+			p := a[0].(Ptr)
+			nv := Add(term(in.load(p)), term(a[1]))
+			in.lockDepth++
+			in.store(p, nv)
+			in.lockDepth--
+			return nv
+		}
+		m["sync/atomic.CompareAndSwap"+w] = func(in *Interp, _ *frame, _ *ssa.CallCommon, a []Value) Value {
+			p := a[0].(Ptr)
+			if in.ex.Branch(Eq(term(in.load(p)), term(a[1]))) {
+				in.lockDepth++
+				in.store(p, a[2])
+				in.lockDepth--
+				return True
+			}
+			return False
+		}
+	}
+
 	// ---------------------------------------------------------- sync.Pool
 	// A LIFO list per pool. The pool itself is goroutine-safe and holds no
 	// result-relevant state, so Put/Get are not "shared writes"; what the
